@@ -143,6 +143,7 @@ struct ValueOpts {
     bool numb_kind = true;  // produce NUMB-kind values (API domain) or only CHAR (parser domain)
     bool quoted_numb = true;
     Profile keyprof = P_CIF2_LINE;   // P_CIF2 adds LF inside keys (API-level only: such keys cannot be written)
+    bool long_keys = false;          // rarely a 1985..2030-character key (writer line-breaking boundaries)
 };
 
 inline Gen<Value> scalar_value(const ValueOpts &o) {
@@ -156,7 +157,12 @@ inline Gen<Value> scalar_value(const ValueOpts &o) {
 }
 
 inline Gen<ustr> table_key(const ValueOpts &o) {
-    return rc::gen::weightedOneOf<ustr>({{1, rc::gen::just(ustr())}, {6, text(o.keyprof, 8)}, {2, rc::gen::element<ustr>(u"a", u"A", u"key", u" k ", u"é", u"é", u"'", u"\"", u"a:b")}});
+    auto usual = rc::gen::element<ustr>(u"a", u"A", u"key", u" k ", u"é", u"e\u0301", u"'", u"\"", u"a:b");
+    if (!o.long_keys) return rc::gen::weightedOneOf<ustr>({{1, rc::gen::just(ustr())}, {6, text(o.keyprof, 8)}, {2, usual}});
+    // rarely a key that nearly fills a line (a writer must decide where to break the line before "key":value; boundary lengths)
+    auto longkey = rc::gen::map(rc::gen::pair(range(1985, 2030), range(0, 999)), [](std::pair<int, int> p) {
+        ustr t = vh::u16(std::to_string(p.second)); ustr k((size_t) p.first - t.size(), u'k'); return k + t; });
+    return rc::gen::weightedOneOf<ustr>({{4, rc::gen::just(ustr())}, {24, text(o.keyprof, 8)}, {8, usual}, {1, longkey}});
 }
 
 ustr nfc_key(const ustr &s);   // defined in gens.cpp-less manner below (uses ICU unorm2)
